@@ -12,6 +12,7 @@ extra = sys.argv[3:]
 WT = os.environ.get("SEED_WT") or os.path.join(os.environ.get("SEED_ROOT", "/tmp/seed"), prop)
 OUT = os.path.join(WT, "OUT")
 VERIF = os.path.dirname(os.path.dirname(os.path.abspath(__file__)))
+REPO = os.environ.get("SEED_REPO", "/repo")          # a worktree of /repo at the same HEAD may be used, so that /repo itself stays untouched
 RUNVERIF = os.environ.get("SEED_VERIF", VERIF)      # copy of /verif the checks are run from (so that work in /verif/lean does not interfere)
 SAFE = mut.startswith("safe")                       # behaviour-preserving rewrite: no demonstration, the checks must stay quiet
 ALL = ["C%02d" % i for i in range(1, 21)]
@@ -68,17 +69,17 @@ if not confirmed:
     print(json.dumps(meta, indent=1)[:2000])
     sys.exit(3)
 # 2. run the checks against /repo with the change
-rc, out = sh("git -C /repo status --porcelain --untracked-files=no")
+rc, out = sh("git -C %s status --porcelain --untracked-files=no" % REPO)
 if out.strip():
     print("/repo is not clean:", out); sys.exit(4)
-rc, out = sh("git -C /repo apply %s" % patch)
+rc, out = sh("git -C %s apply %s" % (REPO, patch))
 if rc != 0:
     print("cannot apply to /repo:", out); sys.exit(5)
 results = {}
 try:
     for p in [prop] + extra:
         t0 = time.time()
-        rc, out = sh("python3 tools/check.py %s --tier quick" % p, cwd=RUNVERIF, timeout=3600)
+        rc, out = sh(("CDNS_REPO=%s " % REPO if REPO != "/repo" else "") + "python3 tools/check.py %s --tier quick" % p, cwd=RUNVERIF, timeout=3600)
         viol = [l for l in out.splitlines() if l.startswith("VIOLATION")]
         results[p] = {"exit": rc, "violation_line": viol[0] if viol else None, "summary": out.strip().splitlines()[-1][:300] if out.strip() else "",
                       "wall_s": round(time.time() - t0, 1)}
@@ -96,7 +97,7 @@ try:
                 pass
         print(p, results[p])
 finally:
-    sh("git -C /repo checkout -- .")
+    sh("git -C %s checkout -- ." % REPO)
 meta["checks"] = results
 meta["caught_by"] = [p for p, r in results.items() if r["exit"] != 0 or r["violation_line"]]
 meta["kind"] = "behaviour-preserving rewrite (checks must stay quiet)" if SAFE else "property-breaking change"
